@@ -272,9 +272,7 @@ bool Instance::eval(const size_t argc, char* const* argv) {
         int n = atoi(v);
         if (n != 0) {
             // verify
-            char buf[vlen + 1];
-            snprintf(buf, vlen + 1, "%d", n);
-            if (!strcmp(buf, v)) {
+            if (std::to_string(n) == v) {
                 // verified; is it > 3 chars and can it be a hexstring too?
                 if (vlen > 3 && !(vlen & 1)) {
                     std::vector<unsigned char> pushData;
